@@ -69,9 +69,11 @@ type hFunc struct {
 	pure             bool              // no instructions: a plain Gallina term
 	resultType       string            // Coq type of the definition
 	assumeOk         map[string]bool   // callees whose error is taken to be nil (not in the model)
+	packPair         bool              // results (chan-or-nil, msg-or-nil, error), both nil or both present: option (chan * msg) * nret
 }
 
 type hctx struct {
+	packedNames map[string][]string // packed (channel state, response) value -> the two variables it was assigned to
 	fn      *hFunc
 	fresh   int
 	pending []string // translated bodies of `go func(){...}()` statements, run before the final Ret
@@ -311,7 +313,7 @@ func (h *hctx) expr(e ast.Expr, env henv) hv {
 						return hv{coq: "is_some_msg " + paren(a.coq), kind: "bool"}
 					}
 					return hv{coq: "negb (is_some_msg " + paren(a.coq) + ")", kind: "bool"}
-				case "chan":
+				case "chan", "msg":
 					return boolK(neg)
 				case "opaque":
 					return hv{coq: "?", kind: "opaquebool"}
@@ -691,6 +693,18 @@ func (h *hctx) effect(c *ast.CallExpr, env henv) (heffect, bool) {
 			results: []hv{{coq: vr, kind: "valres"}, retOk("negb (vr_err "+vr+")", "ROther")}}, true
 	case "m.channels.CreateNew":
 		// handled above (prefix m.channels.)
+	case "m.processValidationUpdate":
+		r := h.gensym("r")
+		p := fmt.Sprintf("gen_processValidationUpdate %s %s", h.chidArg(c.Args[1], env), arg(2, "valres"))
+		return heffect{prog: p, binder: r, results: []hv{{coq: "(fst " + r + ")", kind: "ochanmsg"}, {coq: "(fst " + r + ")", kind: "ochanmsg"}, retVar("(snd " + r + ")")}}, true
+	case "m.handleTransportUpdate":
+		r := h.gensym("r")
+		p := fmt.Sprintf("gen_handleTransportUpdate %s %s %s %s", arg(1, "chan"), arg(2, "msg"), arg(3, "valres"), arg(4, "ret"))
+		return heffect{prog: p, binder: r, results: []hv{retVar(r)}}, true
+	case "m.updateValidationStatus":
+		r := h.gensym("r")
+		p := fmt.Sprintf("gen_updateValidationStatus %s %s %s", env["#self"].coq, h.chidArg(c.Args[1], env), arg(2, "valres"))
+		return heffect{prog: p, binder: r, results: []hv{retVar(r)}}, true
 	case "m.transportOptions.ApplyOptions":
 		return heffect{prog: "", results: []hv{retK("ROk")}}, true
 	}
@@ -865,6 +879,12 @@ func (h *hctx) ifThenElse(c hv, a, b func() string) string {
 func (h *hctx) assignEffect(lhs []ast.Expr, define bool, ef heffect, env henv, at ast.Node, cont func(env henv) string) string {
 	if len(lhs) != 0 && len(lhs) != len(ef.results) {
 		h.refuse(at, "%d results assigned to %d variables", len(ef.results), len(lhs))
+	}
+	if len(lhs) == 3 && len(ef.results) == 3 && ef.results[0].kind == "ochanmsg" {
+		if h.packedNames == nil {
+			h.packedNames = map[string][]string{}
+		}
+		h.packedNames[ef.results[0].coq] = []string{lhsName(lhs[0]), lhsName(lhs[1])}
 	}
 	set := func(e henv, vals []hv) {
 		for i, l := range lhs {
@@ -1075,6 +1095,28 @@ func (h *hctx) ifStmt(s *ast.IfStmt, after []ast.Stmt, env henv, tail tailFn) st
 	}
 	if be, ok := s.Cond.(*ast.BinaryExpr); ok && (be.Op == token.NEQ || be.Op == token.EQL) && exprString(be.Y) == "nil" {
 		if nm := lhsName(be.X); nm != "" {
+			if v, ok := env[nm]; ok && v.kind == "ochanmsg" {
+				if s.Else != nil || !terminates(s.Body.List) || be.Op != token.EQL {
+					h.refuse(s, "only `if x == nil { ...return }` is supported for this value")
+				}
+				cm := h.gensym("cm")
+				eS := env.copy()
+				first := true
+				for k2, v2 := range env {
+					if v2.kind == "ochanmsg" && v2.coq == v.coq {
+						_ = k2
+					}
+				}
+				// the two variables bound to the packed value: the channel state first, the response second
+				names := h.packedNames[v.coq]
+				if len(names) != 2 {
+					h.refuse(s, "cannot tell which variables hold the channel state and the response")
+				}
+				_ = first
+				eS[names[0]] = hv{coq: "(fst " + cm + ")", kind: "chan"}
+				eS[names[1]] = hv{coq: "(snd " + cm + ")", kind: "msg"}
+				return fmt.Sprintf("match %s with\n  | None => %s\n  | Some %s => %s\n  end", v.coq, h.seq(s.Body.List, env.copy(), tail), cm, h.seq(after, eS, tail))
+			}
 			if v, ok := env[nm]; ok && v.kind == "omsg" {
 				var elseList []ast.Stmt
 				if s.Else != nil {
@@ -1334,6 +1376,25 @@ func (h *hctx) ret(s *ast.ReturnStmt, env henv) string {
 			}
 		}
 	}
+	if h.fn.packPair {
+		if len(s.Results) != 3 {
+			h.refuse(s, "three results expected")
+		}
+		a, b, e := h.expr(s.Results[0], env), h.expr(s.Results[1], env), h.expr(s.Results[2], env)
+		if e.kind == "nil" {
+			e = retK("ROk")
+		}
+		if e.kind != "ret" {
+			h.refuse(s, "the third result is a %s", e.kind)
+		}
+		switch {
+		case a.kind == "nil" && b.kind == "nil":
+			return h.withPending("(None, "+e.coq+")", false)
+		case a.kind == "chan" && b.kind == "msg":
+			return h.withPending(fmt.Sprintf("(Some (%s, %s), %s)", a.coq, b.coq, e.coq), false)
+		}
+		h.refuse(s, "channel state and response must be both nil or both present (found %s, %s)", a.kind, b.kind)
+	}
 	if len(s.Results) == 1 && len(h.fn.results) > 1 {
 		if c, ok := s.Results[0].(*ast.CallExpr); ok {
 			if ef, ok := h.effect(c, env); ok && !ef.getByID && len(ef.results) == len(h.fn.results) {
@@ -1533,6 +1594,14 @@ func genHandlers(repo, out string, events map[string]bool) {
 			params: map[string]hv{"#self": self, "sender": {coq: "from", kind: "N"}, "incoming": {coq: "m", kind: "msg"}}, results: []string{"ret"}, resultType: "prog nret"},
 		{file: "impl/receiver.go", recv: "receiver", name: "ReceiveRestartExistingChannelRequest", coqName: "gen_ReceiveRestartExistingChannelRequest", binders: "(self : N) (from : N) (m : msg)",
 			params: map[string]hv{"#self": self, "sender": {coq: "from", kind: "N"}, "incoming": {coq: "m", kind: "msg"}}, results: []string{}, resultType: "prog unit"},
+		{file: "impl/impl.go", recv: "manager", name: "processValidationUpdate", coqName: "gen_processValidationUpdate", binders: "(k : chid) (vr : valres)",
+			params: map[string]hv{"#self": self, "chid": {coq: "k", kind: "chid"}, "result": {coq: "vr", kind: "valres"}}, results: []string{"ochan", "omsg", "ret"}, packPair: true, resultType: "prog (option (chan * msg) * nret)"},
+		{file: "impl/impl.go", recv: "manager", name: "handleTransportUpdate", coqName: "gen_handleTransportUpdate", binders: "(c : chan) (resp : msg) (vr : valres) (rerr : nret)",
+			params: map[string]hv{"#self": self, "chst": {coq: "c", kind: "chan"}, "response": {coq: "resp", kind: "msg"}, "result": {coq: "vr", kind: "valres"}, "resultErr": retVar("rerr")}, results: []string{"ret"}, resultType: "prog nret"},
+		{file: "impl/impl.go", recv: "manager", name: "updateValidationStatus", coqName: "gen_updateValidationStatus", binders: "(self : N) (k : chid) (vr : valres)",
+			params: map[string]hv{"#self": self, "chid": {coq: "k", kind: "chid"}, "result": {coq: "vr", kind: "valres"}}, results: []string{"ret"}, resultType: "prog nret"},
+		{file: "impl/impl.go", recv: "manager", name: "UpdateValidationStatus", coqName: "gen_UpdateValidationStatus", binders: "(self : N) (k : chid) (vr : valres)",
+			params: map[string]hv{"#self": self, "chid": {coq: "k", kind: "chid"}, "result": {coq: "vr", kind: "valres"}}, results: []string{"ret"}, resultType: "prog nret"},
 	}
 	var b strings.Builder
 	b.WriteString("(* GENERATED by tools/dt2coq (handlers.go) from impl/utils.go, impl/restart.go, impl/impl.go, impl/events.go and the event\n   methods of channels/channels.go -- do not edit *)\n")
